@@ -230,6 +230,21 @@ theorem shallowWater_dual (eta lam phi : K) (D P : Dual K) :
   ⟨isProj_d.swImplicit_const lam phi D P, isProj_d.swInverse_const eta lam phi D P,
    isProj_v.swInverse_const eta lam phi D P⟩
 
+
+/-- **T8.2** the spectral operators that multiply by a static table along the total-wavenumber
+ axis — `Grid.laplacian`, `Grid.inverse_laplacian`, `Grid.clip_wavenumbers` — with a static radius:
+ the tangent is the same operator applied to the tangent (nothing divides by a differentiated
+ quantity: the eigenvalues are constants of the grid) -/
+theorem spectralScaling_dual (ly : Grid.Layout) (r : K) (n : Nat) (X : List (List (Dual K))) :
+    tansM (Grid.laplacian ly (const r) X) = Grid.laplacian ly r (tansM X) ∧
+    tansM (Grid.inverseLaplacian ly (const r) X) = Grid.inverseLaplacian ly r (tansM X) ∧
+    tansM (Grid.clip ly n X) = Grid.clip ly n (tansM X) ∧
+    valsM (Grid.laplacian ly (const r) X) = Grid.laplacian ly r (valsM X) ∧
+    valsM (Grid.inverseLaplacian ly (const r) X) = Grid.inverseLaplacian ly r (valsM X) ∧
+    valsM (Grid.clip ly n X) = Grid.clip ly n (valsM X) :=
+  ⟨isProj_d.laplacian_const ly r X, isProj_d.inverseLaplacian_const ly r X, isProj_d.clip_const ly n X,
+   isProj_v.laplacian_const ly r X, isProj_v.inverseLaplacian_const ly r X, isProj_v.clip_const ly n X⟩
+
 end linearField
 
 /-! ## T8.3 scan nesting and checkpointing -/
